@@ -707,6 +707,7 @@ func c16Depth(p *core.Program, r *core.Report) {
 
 func c16Controls() []core.Mutant {
 	return []core.Mutant{
+		{Name: "refactor: export filter as a guard clause", File: "conf/types_table.go", Old: "\t\t\tif f.PkgPath == \"\" { // exported\n\t\t\t\ttypes[f.Name] = Tag{Type: f.Type}\n\t\t\t}\n", New: "\t\t\tif f.PkgPath != \"\" {\n\t\t\t\tcontinue\n\t\t\t}\n\t\t\ttypes[f.Name] = Tag{Type: f.Type}\n", Silent: true},
 		{Name: "table publishes unexported fields again", File: "conf/types_table.go", Old: "\t\t\tif f.PkgPath == \"\" { // exported\n\t\t\t\ttypes[f.Name] = Tag{Type: f.Type}\n\t\t\t}", New: "\t\t\ttypes[f.Name] = Tag{Type: f.Type}", Rule: "R16.1", Construct: "conf.FieldsFromStruct"},
 		{Name: "property lookup accepts unexported fields", File: "checker/types.go", Old: "\t\t\t\tif f.Name == name && f.PkgPath == \"\" {\n\t\t\t\t\treturn f.Type, true", New: "\t\t\t\tif f.Name == name {\n\t\t\t\t\treturn f.Type, true", Rule: "R16.1", Construct: "checker.fieldType"},
 		{Name: "method name accepted as a bare identifier", File: "checker/checker.go", Old: "\t\tif t.Method {\n\t\t\t// The VM fetches fields and map entries only; a method can only be called.\n\t\t\treturn v.error(node, \"method %v used as a value, not called\", node.Value)\n\t\t}\n", New: "", Rule: "R16.2", Construct: "IdentifierNode"},
